@@ -434,6 +434,18 @@ def run_partial(ctx):
 
 def replay(case):
     c = case['case']
+    if 'history' in c and 'layout' not in c:
+        from pylatexenc import latexencode
+        if hasattr(latexencode, '_u2l_obj_cache'):
+            latexencode._u2l_obj_cache.clear()
+        ok = True
+        for k, o in enumerate(c['history']):
+            opt = dict(nao=o['nao'], scheme=o['scheme'], policy=o['policy'])
+            for s in HELPER_STRINGS:
+                got, exp = helper_call(opt, s), fresh_call(opt, s)
+                print('call %d' % (k + 1), opt, repr(s), '-> helper', got, 'fresh encoder', exp, '' if got == exp else '  <-- differs')
+                ok = ok and got == exp
+        return ok
     if c.get('partial'):
         from pylatexenc.latexencode import PartialLatexToLatexEncoder
         enc = PartialLatexToLatexEncoder(replacement_latex_protection=c['scheme'], non_ascii_only=c['nao'], unknown_char_warning=False)
